@@ -1,6 +1,12 @@
-// vsched runtime + explorer (see vsched.h).  One forked child per execution.
+// vsched runtime + explorer (see vsched.h).
+// Executions run inside a persistent forked worker process (fork and thread creation are very expensive in this
+// sandbox): the explorer (parent) sends one schedule prefix per request over a pipe, the worker runs the closed
+// harness in-process on a pool of reusable OS threads and sends back the recorded decision points.  A failing
+// execution (assertion, deadlock, livelock, crash) ends the worker process - parked threads cannot be unwound -
+// and the explorer forks a fresh one.
 #include "vsched.h"
 
+#include <poll.h>
 #include <semaphore.h>
 #include <signal.h>
 #include <sys/types.h>
@@ -53,7 +59,12 @@ struct Th {
   long last_load_calls = -1;
   bool last_was_load = false;
   std::function<void()> fn;
-  std::thread os;
+};
+
+struct OsThread {
+  std::thread th;
+  sem_t start;
+  Th* assigned = nullptr;
 };
 
 struct PointRec {
@@ -90,6 +101,7 @@ struct Exec {
   int status = ST_OK;
   std::string failure;
   int hw = 4;
+  bool all_done = false;
 };
 
 Exec* g = nullptr;
@@ -105,8 +117,7 @@ void write_all(int fd, const std::string& s) {
   }
 }
 
-[[noreturn]] void finish_child(int status, const std::string& failure) {
-  // serialise the result and leave without running destructors (other threads may be parked)
+std::string serialize_result(int status, const std::string& failure) {
   std::ostringstream os;
   os << "STATUS " << status << "\n";
   os << "FAILURE " << failure.size() << "\n" << failure << "\n";
@@ -119,7 +130,13 @@ void write_all(int fd, const std::string& s) {
     os << "\n";
   }
   os << "END\n";
-  write_all(g->out_fd, os.str());
+  std::string body = os.str();
+  return "RESULT " + std::to_string(body.size()) + "\n" + body;
+}
+
+// a failing / aborted execution: report and leave the process (parked threads cannot be unwound)
+[[noreturn]] void finish_child(int status, const std::string& failure) {
+  write_all(g->out_fd, serialize_result(status, failure));
   _exit(0);
 }
 
@@ -169,7 +186,7 @@ void schedule(Th* me) {
     // nobody enabled
     bool all_finished = true;
     for (auto& t : e->th) if (!t->finished) all_finished = false;
-    if (all_finished) finish_child(e->status, e->failure);
+    if (all_finished) { e->all_done = true; return; }
     // only spinners left?  let one proceed; repeated without any write => livelock
     Th* sp = nullptr;
     for (auto& t : e->th) if (!t->finished && t->bk == B_ATOMIC_NE && t->spin) { sp = t.get(); break; }
@@ -230,22 +247,35 @@ void schedule(Th* me) {
   }
   if (next != me) {
     e->cur = next->id;
+    // an exiting thread must not touch any execution state after it has passed the baton:
+    // the main thread may finish the execution and free it right away
+    bool exiting = me->finished;
+    sem_t* mysem = &me->sem;
     sem_post(&next->sem);
-    if (me->finished) return;   // exiting thread does not wait
-    sem_wait(&me->sem);
+    if (exiting) return;
+    sem_wait(mysem);
   }
 }
 
-void thread_main(Th* t) {
-  tl_self = t;
-  sem_wait(&t->sem);      // wait until first scheduled
-  t->started = true;
-  t->kind = OP_USER;
-  t->fn();
-  // thread end
-  t->kind = OP_END; t->obj = nullptr; t->bk = B_NONE;
-  t->finished = true;
-  schedule(t);
+std::vector<OsThread*> g_pool;      // parked OS threads (touched only by the thread holding the baton)
+
+void os_thread_main(OsThread* os) {
+  for (;;) {
+    sem_wait(&os->start);
+    Th* t = os->assigned;
+    tl_self = t;
+    sem_wait(&t->sem);      // wait until first scheduled
+    t->started = true;
+    t->kind = OP_USER;
+    t->fn();
+    t->fn = nullptr;
+    // thread end: give the OS thread back before passing the baton
+    t->kind = OP_END; t->obj = nullptr; t->bk = B_NONE;
+    t->finished = true;
+    tl_self = nullptr;
+    g_pool.push_back(os);
+    schedule(t);
+  }
 }
 
 }  // namespace
@@ -334,8 +364,6 @@ void block_join(int tid) {
   me->kind = OP_JOIN; me->obj = nullptr; me->val = tid; me->bk = B_JOIN; me->join_tid = tid;
   schedule(me);
   me->bk = B_NONE;
-  Th* t = g->th[tid].get();
-  if (t->os.joinable()) t->os.join();
   after(nullptr);
 }
 
@@ -382,7 +410,11 @@ int spawn(std::function<void()> fn) {
   t->kind = OP_START;
   Th* raw = t.get();
   g->th.push_back(std::move(t));
-  raw->os = std::thread(thread_main, raw);
+  OsThread* os;
+  if (!g_pool.empty()) { os = g_pool.back(); g_pool.pop_back(); }
+  else { os = new OsThread(); sem_init(&os->start, 0, 0); os->th = std::thread(os_thread_main, os); os->th.detach(); }
+  os->assigned = raw;
+  sem_post(&os->start);
   after(nullptr);
   return raw->id;
 }
@@ -437,43 +469,116 @@ bool parse_block(const std::string& s, size_t& pos, const char* tag, std::string
   return true;
 }
 
-RunOut run_child(const std::function<void()>& body, const Options& opt, const std::vector<int>& prefix,
-                 const std::vector<int>* forced, bool want_trace) {
-  RunOut out;
-  int fds[2];
-  if (pipe(fds) != 0) { out.failure = "pipe failed"; return out; }
+// ---- persistent worker process ---------------------------------------------------------------
+struct Worker {
+  pid_t pid = -1;
+  int to_fd = -1, from_fd = -1;
+  bool alive = false;
+};
+Worker g_worker;
+
+// run one execution in-process (worker side); returns the serialized result if it completed
+std::string run_one(const std::function<void()>& body, const Options& opt, const std::vector<int>& prefix,
+                    bool forced, bool want_trace, int out_fd) {
+  Exec* e = new Exec();
+  Exec* old = g;
+  g = e;
+  delete old;
+  e->out_fd = out_fd;
+  if (forced) { e->forced = true; e->forced_tids = prefix; } else { e->prefix = prefix; }
+  e->want_trace = want_trace;
+  e->max_steps = opt.max_steps;
+  e->hw = opt.hw_concurrency;
+  auto t0 = std::make_unique<Th>();
+  t0->id = 0; sem_init(&t0->sem, 0, 0); t0->started = true; t0->kind = OP_USER;
+  tl_self = t0.get();
+  e->th.push_back(std::move(t0));
+  e->active = true;
+  body();
+  // main body returned: wait for stragglers (joins add points only if threads are left)
+  for (size_t i = 1; i < e->th.size(); i++) {
+    if (!e->th[i]->finished) block_join((int)i);
+  }
+  e->active = false;
+  tl_self = nullptr;
+  return serialize_result(e->status, e->failure);
+}
+
+[[noreturn]] void worker_loop(const std::function<void()>& body, const Options& opt, int rfd, int wfd) {
+  FILE* in = fdopen(rfd, "r");
+  char* line = nullptr;
+  size_t cap = 0;
+  while (getline(&line, &cap, in) > 0) {
+    // "RUN <want_trace> <forced> <n> c0 c1 ..."
+    std::istringstream is(line);
+    std::string cmd; int wt = 0, forced = 0; long n = 0;
+    is >> cmd >> wt >> forced >> n;
+    if (cmd != "RUN") break;
+    std::vector<int> prefix((size_t)n);
+    for (long i = 0; i < n; i++) is >> prefix[(size_t)i];
+    std::string res = run_one(body, opt, prefix, forced != 0, wt != 0, wfd);
+    write_all(wfd, res);
+  }
+  _exit(0);
+}
+
+void kill_worker() {
+  if (g_worker.pid > 0) {
+    if (g_worker.alive) kill(g_worker.pid, SIGKILL);
+    int st; waitpid(g_worker.pid, &st, 0);
+    close(g_worker.to_fd); close(g_worker.from_fd);
+  }
+  g_worker = Worker();
+}
+
+void ensure_worker(const std::function<void()>& body, const Options& opt) {
+  if (g_worker.alive) return;
+  kill_worker();
+  int to[2], from[2];
+  if (pipe(to) != 0 || pipe(from) != 0) { std::perror("pipe"); std::exit(2); }
   fflush(stdout); fflush(stderr);
   pid_t pid = fork();
   if (pid == 0) {
-    close(fds[0]);
-    alarm(60);   // a wedged child must not hang the explorer
-    Exec* e = new Exec();
-    g = e;
-    e->out_fd = fds[1];
-    e->prefix = prefix;
-    if (forced) { e->forced = true; e->forced_tids = *forced; }
-    e->want_trace = want_trace;
-    e->max_steps = opt.max_steps;
-    e->hw = opt.hw_concurrency;
-    auto t0 = std::make_unique<Th>();
-    t0->id = 0; sem_init(&t0->sem, 0, 0); t0->started = true; t0->kind = OP_USER;
-    tl_self = t0.get();
-    e->th.push_back(std::move(t0));
-    e->active = true;
-    body();
-    // main body returned: wait for stragglers (joins add points only if threads are left)
-    Th* me = tl_self;
-    for (size_t i = 1; i < e->th.size(); i++) {
-      if (!e->th[i]->finished) block_join((int)i);
-    }
-    me->finished = true; me->kind = OP_END;
-    finish_child(e->status, e->failure);
+    close(to[1]); close(from[0]);
+    signal(SIGPIPE, SIG_DFL);
+    worker_loop(body, opt, to[0], from[1]);
   }
-  close(fds[1]);
-  std::string s = read_all(fds[0]);
-  close(fds[0]);
-  int st = 0;
-  waitpid(pid, &st, 0);
+  close(to[0]); close(from[1]);
+  g_worker.pid = pid; g_worker.to_fd = to[1]; g_worker.from_fd = from[0]; g_worker.alive = true;
+}
+
+// read exactly n bytes with a timeout; returns false on EOF / timeout
+bool read_n(int fd, size_t n, std::string* out, int timeout_ms) {
+  out->clear();
+  char buf[65536];
+  while (out->size() < n) {
+    struct pollfd pfd{fd, POLLIN, 0};
+    int pr = poll(&pfd, 1, timeout_ms);
+    if (pr <= 0) return false;
+    size_t want = std::min(sizeof(buf), n - out->size());
+    ssize_t k = ::read(fd, buf, want);
+    if (k <= 0) return false;
+    out->append(buf, (size_t)k);
+  }
+  return true;
+}
+
+bool read_line(int fd, std::string* out, int timeout_ms) {
+  out->clear();
+  for (;;) {
+    struct pollfd pfd{fd, POLLIN, 0};
+    int pr = poll(&pfd, 1, timeout_ms);
+    if (pr <= 0) return false;
+    char c;
+    ssize_t k = ::read(fd, &c, 1);
+    if (k <= 0) return false;
+    if (c == '\n') return true;
+    out->push_back(c);
+  }
+}
+
+RunOut parse_result(const std::string& s) {
+  RunOut out;
   size_t pos = 0;
   bool ok = false;
   if (s.compare(0, 7, "STATUS ") == 0) {
@@ -485,25 +590,65 @@ RunOut run_child(const std::function<void()>& body, const Options& opt, const st
       size_t nl2 = s.find('\n', pos);
       long np = std::atol(s.substr(pos + 7, nl2 - pos - 7).c_str());
       pos = nl2 + 1;
-      std::istringstream is(s.substr(pos));
+      const char* p = s.c_str() + pos;
+      char* endp = nullptr;
+      out.points.reserve((size_t)np);
       for (long i = 0; i < np; i++) {
-        PointRec p; int ce, n;
-        is >> p.cur >> ce >> p.chosen >> n;
-        p.cur_enabled = ce != 0;
-        p.enabled.resize(n);
-        for (int k = 0; k < n; k++) is >> p.enabled[k];
-        out.points.push_back(std::move(p));
+        PointRec pr;
+        pr.cur = (int)std::strtol(p, &endp, 10); p = endp;
+        pr.cur_enabled = std::strtol(p, &endp, 10) != 0; p = endp;
+        pr.chosen = (int)std::strtol(p, &endp, 10); p = endp;
+        long n = std::strtol(p, &endp, 10); p = endp;
+        pr.enabled.resize((size_t)n);
+        for (long k = 0; k < n; k++) { pr.enabled[(size_t)k] = (int)std::strtol(p, &endp, 10); p = endp; }
+        out.points.push_back(std::move(pr));
       }
-      std::string endtok; is >> endtok;
-      ok = (endtok == "END");
+      while (*p == '\n' || *p == ' ') p++;
+      ok = std::strncmp(p, "END", 3) == 0;
     }
   }
-  if (!ok) {
+  if (!ok) { out.status = ST_CRASH; out.failure = "malformed result from worker"; }
+  return out;
+}
+
+RunOut run_child(const std::function<void()>& body, const Options& opt, const std::vector<int>& prefix,
+                 const std::vector<int>* forced, bool want_trace) {
+  ensure_worker(body, opt);
+  const std::vector<int>& v = forced ? *forced : prefix;
+  std::string req = "RUN " + std::to_string(want_trace ? 1 : 0) + " " + std::to_string(forced ? 1 : 0) + " " + std::to_string(v.size());
+  for (int c : v) { req += ' '; req += std::to_string(c); }
+  req += "\n";
+  write_all(g_worker.to_fd, req);
+  RunOut out;
+  std::string header, payload;
+  const int kTimeoutMs = 120000;
+  bool got = read_line(g_worker.from_fd, &header, kTimeoutMs) && header.compare(0, 7, "RESULT ") == 0 &&
+             read_n(g_worker.from_fd, (size_t)std::atol(header.c_str() + 7), &payload, kTimeoutMs);
+  if (got) {
+    out = parse_result(payload);
+    if (out.status != ST_OK) {   // the worker has left the process after reporting
+      int st; waitpid(g_worker.pid, &st, 0);
+      close(g_worker.to_fd); close(g_worker.from_fd);
+      g_worker = Worker();
+    }
+    return out;
+  }
+  // no (complete) result: crash or hang
+  int st = 0;
+  pid_t r = waitpid(g_worker.pid, &st, WNOHANG);
+  if (r == 0) {   // still running: hang
+    kill(g_worker.pid, SIGKILL);
+    waitpid(g_worker.pid, &st, 0);
+    out.status = ST_HORIZON;
+    out.failure = "execution did not finish within the wall-clock limit (hang outside the scheduler's control)";
+  } else {
     out.status = ST_CRASH;
     out.sig = WIFSIGNALED(st) ? WTERMSIG(st) : 0;
-    out.failure = "child died without a result (signal " + std::to_string(out.sig) + ", exit " +
+    out.failure = "worker died without a result (signal " + std::to_string(out.sig) + ", exit " +
                   std::to_string(WIFEXITED(st) ? WEXITSTATUS(st) : -1) + ")";
   }
+  close(g_worker.to_fd); close(g_worker.from_fd);
+  g_worker = Worker();
   return out;
 }
 
@@ -589,6 +734,7 @@ Result explore(const std::function<void()>& body, const Options& opt) {
   }
   res.distinct_outcomes = (long)outcomes.size();
   res.distinct_prefixes = res.points + 1;
+  kill_worker();
   return res;
 }
 
